@@ -27,7 +27,7 @@ EXPLANATION = ("Real CallGraph(trace, ranks) (trace_call_graph._build_call_stack
                "kernel_span = count / sum / min start / max end / difference over device descendants (0,0,-1,-1,0 if none). "
                "Non-trivial path = an operator with >= 2 device descendants, or an attached autograd operator.")
 ASSUMPTIONS = ["WF per host thread (nested or disjoint), unique correlation ids, device streams positive, event 0 a host "
-               "operator, kernel.ts >= launch.ts", "unstable pre-sort ties taken as stable (the comparator decides the order, "
+               "operator; kernel.ts >= launch.ts is NOT assumed", "unstable pre-sort ties taken as stable (the comparator decides the order, "
                "see C03)", "JSON reading stubbed"]
 STUBS = ["hta.common.trace_parser.parse_trace_dict", "Trace._validate_trace_files", "plotly", "logging"]
 
@@ -117,7 +117,7 @@ def run(ctx):
         assume_nested_or_disjoint(ctx, [(h["ts"], h["end"]) for h in H if h["tid"] == tid])
     for d in D:
         if d["launch"] is not None:
-            ctx.assume(d["ts"] >= d["launch"]["ts"])
+            pass      # kernel.ts >= launch.ts is not assumed: the quantifier does not ask for causal consistency
     ta = ctx.open(events)
     m = ta.t.min_ts
     if ctx.mode == "sym":
